@@ -164,6 +164,32 @@ example :
     Spec.c15Holds ⟨true, [⟨[.header 200, .write 10 10 false], 200, 10, false⟩], some (200, 9)⟩ = false := by
   decide
 
+/-! ### non-vacuity (audit): `C15_bookkeeping` and `C15_error` themselves on the history of the first
+    example above (four calls, three underlying writes, the second of which fails after 70 of 120 bytes) -/
+namespace C15Example
+
+def v : Marshalled := { prettyJson := some 100, prettyXml := some 120, encJson := [91], encXml := [4096, 37] }
+def calls : List Call := [Call.setAccept .xml, Call.writeHeaderAndEntity 201 v, Call.write 50, Call.prettyPrint false]
+def env : Env := Env.ofList [⟨39, false⟩, ⟨70, true⟩, ⟨50, false⟩]
+
+/-- `C15_bookkeeping`: its hypothesis holds, and the three quantities it equates are 201 / 159 here -/
+example := C15_bookkeeping env {} calls (by decide)
+example : (finalState env (State.init {}) calls).StatusCode = 201 ∧ (finalState env (State.init {}) calls).ContentLength = 159 ∧
+    Spec.effectiveStatus (eventsOf env (State.init {}) calls) = 201 ∧ Spec.acceptedBytes (eventsOf env (State.init {}) calls) = 159 ∧
+    (eventsOf env (State.init {}) calls).length = 4 := by
+  decide
+
+/-- `C15_error` at k = 1: that write was made (`hk`) and failed (`hf`); the call that made it
+    returned an error with length 39 + 70 -/
+example : (1 < (finalState env (State.init {}) calls).writes) ∧ (env 1).failed = true ∧ envAccepted env 2 = 109 := by decide
+example := C15_error env {} calls 1 (by decide) (by decide)
+example := C15_error_events env {} calls
+
+/-- `C15` on that history, without and with a content coding underneath -/
+example : Spec.c15Holds (Spec.modelHistory true env {} calls) = true := C15 true env {} calls
+
+end C15Example
+
 /-! The frame condition (Lemmas/StateShape.lean): the code has exactly the state this property's model
     accounts for — no further package-level variable, struct type or field; constants as modelled. -/
 -- also: Restful.StateShape.globals_shape
